@@ -356,10 +356,23 @@ theorem pd_all (cfg : RCfg) (hw : WrapPD cfg) :
     exact ⟨this.1, Or.inr this.2.2, this.2.2⟩
   -- item
   case case3 =>
-    rename_i st bs st1 ih hpl hp hs
+    rename_i st bs hE hpl hp hs
+    simp only [renderBlock, PDOut, hE, if_true]
+    refine ⟨?_, Or.inr trivial, trivial⟩
+    have hsep : AllLines (PfxOK st.pfx st.snd)
+        (if st.listTight = true then [] else if st.suppress = true then [] else rstrip st.snd ++ ['\n']) := by
+      split
+      · exact .nil
+      · split
+        · exact .nil
+        · exact .single (no_nl_rstrip hs) (by simpa using PfxOK.of_rsnd st.pfx st.snd [])
+    rw [List.append_assoc]
+    exact hsep.append (.single (no_nl_rstrip hp) (Or.inr (Or.inl (List.prefix_refl _))))
+  case case4 =>
+    rename_i st bs st1 hE ih hpl hp hs
     simp only [plainBlock] at hpl
     have := ih hpl hp hs
-    simp only [renderBlock, PDOut] at this ⊢
+    simp only [renderBlock, PDOut, hE, if_false] at this ⊢
     refine ⟨AllLines.append ?_ this.1, this.2.1, this.2.2⟩
     split
     · exact .nil
@@ -367,7 +380,7 @@ theorem pd_all (cfg : RCfg) (hw : WrapPD cfg) :
       · exact .nil
       · exact .single (no_nl_rstrip hs) (by simpa using PfxOK.of_rsnd st.pfx st.snd [])
   -- quote
-  case case4 =>
+  case case5 =>
     rename_i st bs inner ih hpl hp hs
     simp only [plainBlock] at hpl
     have := ih hpl (by simp [inner, hp]) (by simp [inner, hs])
@@ -376,7 +389,7 @@ theorem pd_all (cfg : RCfg) (hw : WrapPD cfg) :
     have h1 : AllLines (PfxOK st.pfx st.snd) (renderBlocks cfg inner bs).1 := this.1.mono (fun L h => h.container)
     exact h1.of_cut (Or.inl rfl) (cut_stripTrailingBlank _ _)
   -- alert
-  case case5 =>
+  case case6 =>
     rename_i st ty bs inner ih hpl hp hs
     simp only [plainBlock, Bool.and_eq_true, noNl_iff] at hpl
     have := ih hpl.2 (by simp [inner, hs]) (by simp [inner, hs])
@@ -393,17 +406,17 @@ theorem pd_all (cfg : RCfg) (hw : WrapPD cfg) :
     · exact .nil
     · exact h1.of_cut (Or.inl rfl) (cut_stripTrailingBlank _ _)
   -- fenced / indented code
-  case case6 =>
+  case case7 =>
     rename_i st lang extra content fch flen hpl hp hs
     simp only [plainBlock, Bool.and_eq_true, noNl_iff, bne_iff_ne] at hpl
     simp only [renderBlock, PDOut]
     exact ⟨pd_code st content lang extra true fch flen hp hs hpl.1.1 hpl.1.2 hpl.2, Or.inr trivial, trivial⟩
-  case case7 =>
+  case case8 =>
     rename_i st content _ hp hs
     simp only [renderBlock, PDOut]
     exact ⟨pd_code st content [] [] false '`' 3 hp hs (by simp) (by simp) (by decide), Or.inr trivial, trivial⟩
   -- thematic break
-  case case8 =>
+  case case9 =>
     rename_i st _ hp hs
     simp only [renderBlock, PDOut]
     refine ⟨?_, Or.inr trivial, trivial⟩
@@ -411,7 +424,7 @@ theorem pd_all (cfg : RCfg) (hw : WrapPD cfg) :
     rw [this]
     exact .single (by simp [hp]) (PfxOK.of_pfx _ _ _)
   -- heading (two branches of the trailing-backslash test)
-  case case9 =>
+  case case10 =>
     rename_i st level cs sx r0 r hb _ hp hs
     simp only [renderBlock, PDOut]
     have hb' : ((unbreak (renderInlines cfg true [] cs).1).getLast? == some '\\') = true := hb
@@ -421,7 +434,7 @@ theorem pd_all (cfg : RCfg) (hw : WrapPD cfg) :
         = (st.pfx ++ (List.replicate level '#' ++ ' ' :: unbreak (renderInlines cfg true [] cs).1)) ++ ['\n'] := by simp
     rw [this]
     exact .single (by simp [hp, unbreak_no_nl, mem_replicate_ne (show '#' ≠ '\n' by decide)]) (PfxOK.of_pfx _ _ _)
-  case case10 =>
+  case case11 =>
     rename_i st level cs sx r0 r hb _ hp hs
     simp only [renderBlock, PDOut]
     have hb' : ((unbreak (renderInlines cfg true [] cs).1).getLast? == some '\\') = false := by simpa using hb
@@ -433,11 +446,11 @@ theorem pd_all (cfg : RCfg) (hw : WrapPD cfg) :
     exact (AllLines.single (by simp [hp, unbreak_no_nl, mem_replicate_ne (show '#' ≠ '\n' by decide)]) (PfxOK.of_pfx _ _ _)).append
       (.single (no_nl_rstrip hs) (by simpa using PfxOK.of_rsnd st.pfx st.snd []))
   -- blank line
-  case case11 =>
+  case case12 =>
     rename_i st hskip _ hp hs
     simp only [renderBlock, PDOut, hskip, if_true]
     exact ⟨.nil, Or.inl trivial, trivial⟩
-  case case12 =>
+  case case13 =>
     rename_i st hskip _ hp hs
     have hskip' : st.skipBlank = false := by simpa using hskip
     simp only [renderBlock, PDOut, hskip', Bool.false_eq_true, if_false]
@@ -446,10 +459,10 @@ theorem pd_all (cfg : RCfg) (hw : WrapPD cfg) :
     · exact .single (body := []) (by simp) (Or.inl rfl)
     · exact .single hp (by simpa using PfxOK.of_pfx st.pfx st.snd [])
   -- link reference definition and table: excluded
-  case case13 => rename_i hpl _ _; simp [plainBlock] at hpl
-  case case15 => rename_i hpl _ _; simp [plainBlock] at hpl
+  case case14 => rename_i hpl _ _; simp [plainBlock] at hpl
+  case case16 => rename_i hpl _ _; simp [plainBlock] at hpl
   -- footnote definition
-  case case14 =>
+  case case15 =>
     rename_i st label bs inner ih hpl hp hs
     simp only [plainBlock, Bool.and_eq_true, noNl_iff] at hpl
     have := ih hpl.2 (by simp [inner, hp, hpl.1]) (by simp [inner, hs])
@@ -465,8 +478,8 @@ theorem pd_all (cfg : RCfg) (hw : WrapPD cfg) :
     rw [this]
     exact h2.append (.single (by simp) (Or.inl rfl))
   -- sequences
-  case case16 => simp only [renderBlocks, PDOut]; exact ⟨.nil, Or.inl trivial, trivial⟩
-  case case17 =>
+  case case17 => simp only [renderBlocks, PDOut]; exact ⟨.nil, Or.inl trivial, trivial⟩
+  case case18 =>
     rename_i st b rest r ih2 ih1 hpl hp hs
     simp only [plainBlocks, Bool.and_eq_true] at hpl
     have h2 := ih2 hpl.1 hp hs
@@ -480,8 +493,8 @@ theorem pd_all (cfg : RCfg) (hw : WrapPD cfg) :
     · rcases h1.2.1 with e | e
       · rw [e]; exact h2.2.1
       · rw [e, h2.2.2]; exact Or.inr rfl
-  case case18 => simp only [renderItems, PDOut]; exact ⟨.nil, Or.inl trivial, trivial⟩
-  case case19 =>
+  case case19 => simp only [renderItems, PDOut]; exact ⟨.nil, Or.inl trivial, trivial⟩
+  case case20 =>
     rename_i st o start bl i b rest p sup r ih2 ih1 hpl hbl hp hs
     simp only [plainBlocks, Bool.and_eq_true] at hpl
     have hip := itemPrefix_no_nl o start i bl (noNl_iff.1 hbl)
